@@ -24,6 +24,22 @@ class World:
 
     def nodes(self, rng):
         from pytoniq_core.tlb.config import ValidatorDescr, SigPubKey
+        if self.pubs and all(0 <= w < 1 << 64 for w in self.weights) and rng.random() < 0.5:
+            # the way a client gets its validator list: the TL-B ValidatorSet of the configuration (encoded here by the independent R3 transcription), parsed by the library
+            from pytoniq_core.tlb.config import ValidatorSet
+            from lib import bridge, tlbref as T, tlbspec as S
+            n = len(self.pubs)
+            vs = {'_': 'validators', 'utime_since': 1, 'utime_until': 2, 'total': n, 'main': n,
+                  'list': {i: ({'_': 'validator', 'public_key': {'_': 'ed25519_pubkey', 'pubkey': p}, 'weight': w} if rng.random() < 0.5 else
+                               {'_': 'validator_addr', 'public_key': {'_': 'ed25519_pubkey', 'pubkey': p}, 'weight': w, 'adnl_addr': rng.randbytes(32)})
+                           for i, (p, w) in enumerate(zip(self.pubs, self.weights))}}
+            w_ = T.W()
+            S.enc(w_, S.t('ValidatorSet'), vs)
+            st, parsed = mon.call(lambda: ValidatorSet.deserialize(bridge.to_lib(w_.cell()).begin_parse()))
+            if st == 'ok' and isinstance(getattr(parsed, 'list', None), dict) and len(parsed.list) == n:
+                self.route = 'parsed-from-tlb'
+                return [parsed.list[i] for i in range(n)]
+        self.route = 'constructed'
         out = []
         for p, w in zip(self.pubs, self.weights):
             if rng.random() < 0.5:
@@ -64,6 +80,8 @@ def r7(world, sigs, blk_root, blk_file):
 def weight_classes(rng, n):
     yield 'equal', [1] * n
     yield 'equal-big', [1 << 60] * n
+    if n:
+        yield 'top-bit', [(1 << 63) + 5] + [1 << 20] * (n - 1)
     if n:
         yield 'one-dominant', [10 * n] + [1] * (n - 1)
         yield 'random64', [rng.getrandbits(64) for _ in range(n)]
@@ -169,6 +187,7 @@ def run(R):
                          'signers': [next((i for i, p in enumerate(world.pubs) if node_id(p).hex() == s['node_id_short']), -1) for s in sigs][:40],
                          'seeds': [bytes(k).hex() for k in world.keys[:12]], 'root': root, 'file': fileh}
                     R.count('verdict_' + want)
+                    R.count('nodes_' + getattr(world, 'route', 'constructed'))
                     R.cover('reasons', reason)
                     R.cover('operators', op)
                     if st == 'exc':
@@ -295,6 +314,7 @@ def run(R):
                              'seeds': [bytes(k).hex() for k in world.keys], 'root': root, 'file': fileh, 'reason': reason, 'weight_class': 'knife-edge'})
             R.case(mon.fp('knife', e, tuple(weights), tuple(signers)))
     R.floor('knife_edge_cases', 10)
+    R.floor('nodes_parsed-from-tlb', 500)
     R.floor('reweighted_cases', 100)
     R.floor('malformed_signature_cases', 50)
     R.floor('verdict_accept', 40)
